@@ -53,18 +53,24 @@ SRV = "server"
 reg(Check("C05", "exploration",
           "exhaustive enumeration: all 256 modes, all 256x256 ordered pairs, all strings of length <=5 (quick) / <=6 "
           "(thorough) over a 17-symbol alphabet incl. junk, '+', '-', 'N'; non-trivial = every case whose expected result "
-          "differs from the identity (mode changes or input rejected); distinct = distinct inputs",
+          "differs from the identity (mode changes or input rejected); distinct = distinct inputs. Notifications: breadth-first search "
+          "to depth 3 (quick) / 5 (thorough) over histories of 46 permission-changing requests by 3 users on a group (own mode, others' "
+          "mode incl. invitations and ownership hand-over, subscribe, leave, unsubscribe, evict); after every step three trackers are "
+          "compared with the topic's authoritative table: each user's passive session on 'me', a proxy table fed through the real "
+          "Topic.updateAcsFromPresMsg from a passive admin session on the topic, and the acting session's own {ctrl} replies",
           ["reference = bit-set semantics written from the property statement",
-           "strings longer than the bound are not enumerated"],
+           "strings longer than the bound are not enumerated",
+           "notifications: the proxy table is compared only while the observing admin is attached with the S permission (that is who the "
+           "topic-side notifications are addressed to); trackers are resynchronised after a reported divergence"],
           text="Complete enumeration of the finite mode space (256 modes, 65536 pairs) and of every string up to the "
                "length bound, each compared with a bit-set reference; the space below the bound is covered entirely.",
           note="Reference semantics written from the statement; 'N' followed by further known letters is treated as "
-               "unspecified (reject or none). Strings longer than the bound and the notification replay through a "
-               "live topic are outside this part.",
+               "unspecified (reject or none). Strings longer than the bound are not enumerated.",
           technique="bounded-exhaustive enumeration against a reference model (explicit-state, inputs)",
           engine="E4 enum",
           parts=[Part("algebra", TYPES, "^TestVerifC05Algebra$", shards=(1, 1)),
-           Part("strings", TYPES, "^TestVerifC05Strings$", shards=(16, 16))]))
+           Part("strings", TYPES, "^TestVerifC05Strings$", shards=(16, 16)),
+           Part("notifications", SRV, "^TestVerifC05Notifications$", instr=True, gomaxprocs=16, deadline=(300, 3000))]))
 
 reg(Check("C04", "model_checking",
           "E4a: every ordered list of <=4 (quick) / <=5 (thorough) ranges with Low in [0,6], Hi in {0} or (Low,8], sorted with "
